@@ -652,7 +652,7 @@ func (p *Parse) analyzeDefault() {
 				if mb == nil || enum == nil {
 					p.parseErr("can not find default value" + r.Default)
 				}
-				defValue := enum.Name + "_" + utils.UpperFirstLetter(mb.Key)
+				defValue := utils.UpperFirstLetter(enum.Name) + "_" + utils.UpperFirstLetter(mb.Key)
 				var currModule string
 				if p.opt.ModuleCycle {
 					currModule = p.tarsFile.ProtoName + "_" + p.tarsFile.Module.Name
